@@ -106,6 +106,15 @@ CLAIMS = {
              "dust bounds, order independence across release groups (numeric over histories).",
         technique="loop-body guard reachability, sibling-loop agreement, pairing/provenance on MIR expressions",
         ref="6/C01"),
+    "C05": dict(
+        text="Decides the three structural clauses on all four fee paths (discovered as subtractions of min(x, y) with a peg_recovery_fee "
+             "factor): the fee subtraction is reachable only through the strict bsei_exchange_rate < er_threshold edge on the "
+             "re-synchronised state; the fee is min(no-fee amount x fee rate, required fee) with the cap built from the same no-fee amount; "
+             "the charged amount is only ever the no-fee amount or its unsigned difference with the fee and that is what is minted / "
+             "recorded; the four required-fee operands agree on operand roles and side. NOT decided: 'never past the peg by more than 2 "
+             "units' (numeric).",
+        technique="guard-edge reachability (operator-exact) + operand-role matching across sibling sites",
+        ref="6/C05"),
 }
 
 NA = {
